@@ -645,6 +645,17 @@ def gen_terrain(rng, maxs):
         dtype = "float64"
     if kind == "bumps" and not dtype.startswith("float"):
         a = [[float(int(x)) for x in row] for row in a]
+    if dtype.startswith("uint"):
+        lo = min(min(row) for row in a)
+        if lo < 0:
+            a = [[x - lo for x in row] for row in a]
+    if dtype in ("uint8", "int8") and rng.random() < 0.3 and kind in ("int", "alphabet", "plateau", "flat"):
+        # elevations near the top of the dtype's range: terrain + observer_elev does not fit the raster's own dtype
+        top = 253.0 if dtype == "uint8" else 125.0
+        hi = max(max(row) for row in a)
+        a = [[x + (top - hi) for x in row] for row in a]
+        if dtype == "int8":
+            a = [[max(x, -128.0) for x in row] for row in a]
     oe = rng.choice([0, 0, 1, -1, 5, 0.5, -0.5])
     if kind == "rowrelief":
         oe = rng.choice([0, 1, 1, 0.5, 2])
@@ -653,7 +664,7 @@ def gen_terrain(rng, maxs):
     return c
 
 
-DTYPES = ["float64", "float64", "float32", "int32", "int64", "int16"]
+DTYPES = ["float64", "float64", "float32", "int32", "int64", "int16", "uint8", "uint16", "int8"]
 
 # Coordinate / attribute kinds of the DataArray handed to the public function.  Steps and origins are dyadic, so that
 # `c0 + j * step` and `(c[-1] - c[0]) / (n - 1)` are exact in float64 (the exact seam 0 and the exact wrapper seam need that).
@@ -716,7 +727,9 @@ def terrain_setup(c):
     ys = c["y0"] + c["dy"] * np.arange(h, dtype=np.float64)
     ew = (xs[-1] - xs[0]) / (w - 1)
     ns = (ys[-1] - ys[0]) / (h - 1)
-    velev = a[c["vr"], c["vc"]] + c["oe"]
+    # the eye: terrain at the observer's cell + observer height, as numbers (NOT in the raster's dtype: a narrow or unsigned
+    # integer dtype would wrap around, or refuse a negative height)
+    velev = float(a[c["vr"], c["vc"]]) + c["oe"]
     vt = float(c["te"]) if c["te"] > 0 else 0.0
     return a, xs, ys, float(ew), float(ns), float(velev), vt
 
@@ -1825,7 +1838,7 @@ def run(r):
     V()
     r.rule = ("terrains 2x2..15x15 (thorough 30x30) over small alphabets / plane+bumps / plateaus / dyadics / ints / flat / "
               "row-relief (tall cells in the lines adjacent to one of the observer's four axis rays), "
-              "dtypes f8 f4 i8 i4 i2, every observer cell incl. corners and edges, observer_elev in {-1,-0.5,0,0.5,1,5}, target_elev in "
+              "dtypes f8 f4 i8 i4 i2 u1 u2 i1 (narrow ones also near the top of their range), every observer cell incl. corners and edges, observer_elev in {-1,-0.5,0,0.5,1,5}, target_elev in "
               "{0,0.5,1,2}, square and non-square cells; DataArray kinds for everything that goes through viewshed(): x / y "
               "ascending or descending, dyadic steps 0.25..30, origins up to 4.1e6, observer given at a centre / off-centre (nearest "
               "centre) / clamped to the edge / (wrapper seam only) exactly half way and outside, attrs['res'] absent / consistent / "
